@@ -128,7 +128,15 @@ func c16Structure(c *Ctx) {
 		}
 		// the RSA key is returned only under the sign checks
 		n := 0
-		for _, r := range w.MayBeNilReturns(pk) {
+		var rsaReturns []*ssa.Return
+		for _, g := range w.Tree(pk) {
+			for _, b := range g.Blocks {
+				if r, ok := b.Instrs[len(b.Instrs)-1].(*ssa.Return); ok && len(r.Results) > 0 {
+					rsaReturns = append(rsaReturns, r)
+				}
+			}
+		}
+		for _, r := range rsaReturns {
 			al, ok := strip(r.Results[0]).(*ssa.Alloc)
 			if !ok || !strings.HasSuffix(al.Type().String(), "crypto/rsa.PublicKey") {
 				continue
@@ -160,7 +168,7 @@ func c16Structure(c *Ctx) {
 				return lenArg(bin.X) != nil && isK && k == 0 && ((bin.Op == token.NEQ && !l.Pol) || (bin.Op == token.EQL && l.Pol) || (bin.Op == token.GTR && !l.Pol))
 			})
 			c.Check(okN && okE && okRest, "R3.trailing", "parsePublicKey|RSA key only with positive modulus/exponent and no trailing data", w.Pos(r.Pos()), "must-facts N.Sign() > 0, E > 0, len(rest) == 0", "an RSA key with a non-positive modulus/exponent or trailing data can be returned")
-			fs := FieldStores(pk, al)
+			fs := w.FieldStoresDeep(pk, al)
 			okFields := len(fs["N"]) == 1 && strings.HasSuffix(w.Expr(fs["N"][0]), ".N") && len(fs["E"]) == 1 && strings.HasSuffix(w.Expr(fs["E"][0]), ".E")
 			c.Check(okFields, "R3.trailing", "parsePublicKey|RSA key fields from the decoded structure", w.Pos(r.Pos()), "N: p.N, E: p.E", "modulus/exponent are swapped or replaced")
 		}
